@@ -8,8 +8,10 @@ import docs
 
 LEAN_MODULES = ['GoSnaps.Props.C16']
 
-LEAVES = ['big', 'a', 's', 'o.x', 'o.y.0', 'l.0.k', 'n', 'deep.er.est']
-BASE = {'big': 1585369512231022593, 'a': 1, 's': 'str', 'o': {'x': True, 'y': [1, 2]}, 'l': [{'k': 'v'}], 'n': 'nn', 'deep': {'er': {'est': 5}}}
+LEAVES = ['big', 'a', 's', 'o.x', 'o.y.0', 'l.0.k', 'n', 'deep.er.est', 'filter[status]', 'filter.status', 'ids[0]', 'ids.0']
+BASE = {'big': 1585369512231022593, 'a': 1, 's': 'str', 'o': {'x': True, 'y': [1, 2]}, 'l': [{'k': 'v'}], 'n': 'nn', 'deep': {'er': {'est': 5}},
+        # keys that CONTAIN brackets next to members reachable through the dotted reading of the same text
+        'filter[status]': 'open', 'filter': {'status': 'dotted'}, 'ids[0]': 'literal', 'ids': ['element']}
 YLEAVES = ['a', 's', 'o.x', 'flag']
 YBASE = {'big': 1585369512231022593, 'a': 1, 's': 'str', 'o': {'x': 'xx'}, 'flag': False}
 
@@ -72,7 +74,11 @@ def make_world(g, tag):
             masked_iter = masked
         for p in masked_iter:
             k = r.random()
-            if k < 0.6:
+            va, vb = getp(a, p), getp(b, p)
+            if k < 0.3 and type(va) == type(vb) and docs.go_type(va) in ('string', 'bool', 'float64'):
+                # Type is satisfied by both variants (the value kept its type)
+                mts.append(docs.type_matcher([p], docs.go_type(va)))
+            elif k < 0.6:
                 mts.append(docs.any_matcher([p], r.choice([None, '"é"', '"x\\"y"', '"MASK"', 'null'])))
             else:
                 mts.append(docs.custom_matcher(p, True, '"custom placeholder"'))
